@@ -88,26 +88,31 @@ pub fn cmd_threads(args: &[String]) -> u8 {
     }
     let mut ch = Choices::generate(crate::prng::run_seed(seed, 99, 0));
     // shared terms: twins of two small descriptions, to be observed by other threads
-    let gp = GenParams { max_depth: 2, max_fan: 3, n_names: 3, unordered_bias: 3, exotic: false };
+    let gp = GenParams { max_depth: 2, max_fan: 3, n_names: 3, unordered_bias: 3, exotic: false, stop_den: 3 };
     let rp = RealiseParams { reorder: true, duplicates: true, capacity: true, wrap: 0, text_routes: false };
     let mut rs = RStats::default();
     let d = gen_desc(&mut ch, &gp, 0, false);
     let mut shared: Vec<Term> = vec![];
-    for _ in 0..2 {
+    let need_terms = mix == "terms" || mix == "all";
+    for _ in 0..(if need_terms { 2 } else { 0 }) {
         shared.push(realise(&d, &mut ch, &mut rs, &rp));
     }
     // one more twin is built by a spawned thread (its RandomState keys come from that thread)
-    let d2 = d.clone();
-    let mut ch2 = Choices::generate(crate::prng::run_seed(seed, 99, 1));
-    let built_elsewhere = std::thread::spawn(move || {
-        let mut rs = RStats::default();
-        realise(&d2, &mut ch2, &mut rs, &rp)
-    })
-    .join()
-    .expect("builder thread");
-    shared.push(built_elsewhere);
-    if let Some((near, _, _)) = near_miss(&d, &mut ch) {
-        shared.push(realise(&near, &mut ch, &mut rs, &rp));
+    if need_terms {
+        let d2 = d.clone();
+        let mut ch2 = Choices::generate(crate::prng::run_seed(seed, 99, 1));
+        let built_elsewhere = std::thread::spawn(move || {
+            let mut rs = RStats::default();
+            realise(&d2, &mut ch2, &mut rs, &rp)
+        })
+        .join()
+        .expect("builder thread");
+        shared.push(built_elsewhere);
+        if let Some((near, _, _)) = near_miss(&d, &mut ch) {
+            shared.push(realise(&near, &mut ch, &mut rs, &rp));
+        }
+    } else {
+        shared.push(Term::new_word("unused"));
     }
     let shared = Arc::new(shared);
     let expected_same: Vec<Vec<bool>> = shared.iter().map(|a| shared.iter().map(|b| abstract_term(a) == abstract_term(b)).collect()).collect();
@@ -117,20 +122,44 @@ pub fn cmd_threads(args: &[String]) -> u8 {
     for _ in 0..n_threads {
         let mut q = vec![];
         for _ in 0..n_ops {
-            let f = ch.choose(3) as usize;
+            let f = if mix == "sessions" { 0 } else { ch.choose(3) as usize };
             let ins = inputs_for(f);
             let pick = |ch: &mut Choices| ins[ch.choose(ins.len() as u32) as usize].to_string();
             let weights: [u32; 4] = match mix.as_str() {
                 "terms" => [0, 0, 0, 100],
                 "parse" => [40, 30, 30, 0],
+                "sessions" => [0, 10, 90, 0],
                 _ => [30, 25, 20, 25],
             };
+            if mix == "lexdeep" {
+                // every thread is deep inside the lexical parser at the same time: a well-formed
+                // set nested ~48 levels (run with --threads 6: the depths sum to ~290)
+                let depth = 46usize;
+                let (open, close, sep) = match f {
+                    0 => ("{", "}", ","),
+                    1 => (r"\left\{", r"\right\}", r"\;"),
+                    _ => ("『", "』", "，"),
+                };
+                let inner: Vec<String> = (0..8).map(|i| format!("a{i}")).collect();
+                let text = format!("{}{}{}", open.repeat(depth), inner.join(sep), close.repeat(depth));
+                q.push(TOp::Call(Entry::Lex, f, text));
+                continue;
+            }
             match ch.weighted(&weights) {
                 0 => q.push(TOp::Call([Entry::Lex, Entry::LexTerm, Entry::LexFold][ch.choose(3) as usize].clone(), f, pick(&mut ch))),
                 1 => q.push(TOp::Call(Entry::Enum, f, pick(&mut ch))),
                 2 => {
-                    let n = ch.range(2, 3);
-                    q.push(TOp::Batch(f, (0..n).map(|_| pick(&mut ch)).collect()));
+                    let n = if mix == "sessions" { ch.range(3, 6) } else { ch.range(2, 3) };
+                    let mut v: Vec<String> = vec![];
+                    for _ in 0..n {
+                        // adjacent duplicates are common in line-oriented input
+                        if !v.is_empty() && ch.chance(1, 3) {
+                            v.push(v[v.len() - 1].clone());
+                        } else {
+                            v.push(pick(&mut ch));
+                        }
+                    }
+                    q.push(TOp::Batch(f, v));
                 }
                 _ => q.push(TOp::Observe(ch.choose(shared.len() as u32) as usize, ch.choose(shared.len() as u32) as usize)),
             }
@@ -160,10 +189,11 @@ pub fn cmd_threads(args: &[String]) -> u8 {
 
     // sequential recomputation + oracle
     let mut bad = 0;
+    let mut memo: std::collections::BTreeMap<(usize, usize, String), String> = std::collections::BTreeMap::new();
     for (t, q) in queues.iter().enumerate() {
         for (k, op) in q.iter().enumerate() {
             let again = match op {
-                TOp::Call(e, f, s) => vec![eval_entry(e, *f, s).wire()],
+                TOp::Call(e, f, s) => vec![memo.entry((e.idx(), *f, s.clone())).or_insert_with(|| eval_entry(e, *f, s).wire()).clone()],
                 TOp::Batch(f, ins) => batch_outcomes(*f, ins),
                 TOp::Observe(i, j) => vec![observe(&shared, *i, *j)],
             };
